@@ -140,11 +140,25 @@ impl BuilderArea {
                     }
                 }
                 cx.count(&format!("ser.{}", mode));
+                // one handle, serialised several times into different sinks: serialising is a pure function of the tree
+                fn several<T: serde::Serialize>(h: &T) -> Result<String, String> {
+                    let a = serde_json::to_string(h).map_err(|e| e.to_string())?;
+                    let b = serde_json::to_vec(h).map_err(|e| e.to_string())?;
+                    let c = serde_json::to_value(h).map_err(|e| e.to_string())?;
+                    let d = serde_json::to_string_pretty(h).map_err(|e| e.to_string())?;
+                    let e = serde_json::to_string(h).map_err(|e| e.to_string())?;
+                    let va: Value = serde_json::from_str(&a).map_err(|e| e.to_string())?;
+                    let vd: Value = serde_json::from_str(&d).map_err(|e| e.to_string())?;
+                    if a.as_bytes() != b.as_slice() || a != e || va != c || va != vd {
+                        return Err(format!("SAME-HANDLE serialising one handle again gives another output: first {} then {}", a, e));
+                    }
+                    Ok(a)
+                }
                 let r = catch(|| match *mode {
-                    "plain" => serde_json::to_string(&tree).map_err(|e| e.to_string()),
-                    "resolver" => serde_json::to_string(&tree.as_serialize_with_resolver(&snap)).map_err(|e| e.to_string()),
-                    "data" => serde_json::to_string(&tree.as_serialize_with_data()).map_err(|e| e.to_string()),
-                    _ => serde_json::to_string(&tree.as_serialize_with_data_with_resolver(&snap)).map_err(|e| e.to_string()),
+                    "plain" => several(&tree),
+                    "resolver" => several(&tree.as_serialize_with_resolver(&snap)),
+                    "data" => several(&tree.as_serialize_with_data()),
+                    _ => several(&tree.as_serialize_with_data_with_resolver(&snap)),
                 });
                 match r {
                     Err(m) => {
